@@ -293,12 +293,34 @@ t4 :- dif(X, a), ( X = b, fail ; true ), ( var(X) -> ( X = a -> show(lost_constr
 t5 :- freeze(X, fail), ( \\+ X = 1 -> ( var(X) -> show(ok) ; show(bound) ) ; show(goal_not_run) ).
 % if-then-else condition and negation leave no bindings
 t6 :- ( \\+ (X = 1, Y = 2) -> show(wrong) ; ( var(X), var(Y) -> show(ok) ; show(bound(X,Y)) ) ).
+% backtrackable global variables: the previous value of every kind comes back
+:- use_module(library(iso_ext)).
+gv(Key, Old) :- bb_b_put(Key, Old), ( bb_b_put(Key, other), fail ; true ), bb_get(Key, V),
+                ( V == Old -> show(ok) ; show(got(V)) ).
+t8 :- gv(k8, 7).
+t9 :- gv(k9, f(_, "abc", [1,2])).
+t10 :- X is 2^80 + 5, gv(k10, X).
+t11 :- gv(k11, hello), ( bb_b_put(k11b, 1), fail ; true ), ( bb_get(k11b, V) -> show(still(V)) ; show(ok) ).
+% attributes changed inside a failing branch
+:- attribute colour/1, size/1.
+verify_attributes(_, _, []).
+t12 :- put_atts(X, colour(red)), put_atts(X, size(3)), ( put_atts(X, -colour(_)), fail ; true ),
+       ( get_atts(X, colour(C)), C == red, get_atts(X, size(S)), S == 3 -> show(ok) ; show(lost) ).
+t13 :- put_atts(X, colour(red)), ( put_atts(X, colour(blue)), fail ; true ),
+       ( get_atts(X, colour(C)), C == red -> show(ok) ; show(lost) ).
+t14 :- put_atts(X, colour(red)), ( put_atts(X, -colour(_)), fail ; true ),
+       ( term_attributed_variables(X, Vs), Vs == [X], get_atts(X, colour(C)), C == red -> show(ok) ; show(lost) ).
+t15 :- ( put_atts(X, colour(red)), fail ; true ),
+       ( term_attributed_variables(X, []) -> show(ok) ; show(still_attributed) ).
+t16 :- put_atts(X, colour(red)), put_atts(X, size(3)),
+       ( put_atts(X, -colour(_)), put_atts(X, -size(_)), fail ; true ),
+       ( get_atts(X, colour(C)), C == red, get_atts(X, size(S)), S == 3 -> show(ok) ; show(lost) ).
 """
 
 
 def replay_backtracking(viol):
     cases = [("t1", "ok"), ("t2", "2"), ("t3", "_-2"), ("t4", "ok"), ("t5", "ok"), ("t6", "ok"),
-             ("t7", "unbound")]
+             ("t7", "unbound")] + [("t%d" % k, "ok") for k in range(8, 17)]
     # t3 prints an unbound variable name: normalise by checking only that it is unbound
     cases[2] = ("q3(R), ( R = V-2, var(V) -> show(ok) ; show(R) )", "ok")
     return run_cases(BT_PROGRAM, cases, {"model": viol}, "C11", "backtracking")
